@@ -18,3 +18,24 @@ def register(group):
     g.append(('gen_Arc_u1transform', 'Arc.u1transform', [('self', T.ARC), ('z', 'C')], 'C'))
     g.append(('gen_Arc_parameterize', 'Arc._parameterize', [('self', T.ARC)],
               ('post', '(self.radius, self.center, self.theta, self.delta)', ('tuple', ['C', 'C', 'R', 'R']))))
+    # the same function cut into six slices at its comment blocks; the live variables at each cut are
+    # parameters.  Each slice has its own agreement lemma with the corresponding piece of
+    # Model/Arc.v (arc_zp1/arc_rc, arc_scaled_radius, arc_radical/arc_cp/arc_center, cclip of
+    # arc_u1_raw/arc_u2_raw, arc_theta, arc_delta0/arc_adjust).
+    P = 'Arc._parameterize'
+    R4 = [('rx', 'R'), ('ry', 'R'), ('rx_sqd', 'R'), ('ry_sqd', 'R')]
+    g.append(('gen_Arc_param_A', P, [('self', T.ARC)],
+              ('post', '(x1p, y1p, radius_check)', ('tuple', ['R', 'R', 'R']),
+               {'to': 'if radius_check > 1'})))
+    g.append(('gen_Arc_param_B', P, [('self', T.ARC)] + R4 + [('radius_check', 'R')],
+              ('post', '(rx, ry, self.radius, rx_sqd, ry_sqd)', ('tuple', ['R', 'R', 'C', 'R', 'R']),
+               {'from': 'if radius_check > 1', 'to': 'tmp = '})))
+    g.append(('gen_Arc_param_C', P, [('self', T.ARC)] + R4 +
+              [('x1p', 'R'), ('y1p', 'R'), ('x1p_sqd', 'R'), ('y1p_sqd', 'R')],
+              ('post', '(cp, self.center)', ('tuple', ['C', 'C']), {'from': 'tmp = ', 'to': 'u1 = (x1p'})))
+    g.append(('gen_Arc_param_D', P, [('rx', 'R'), ('ry', 'R'), ('x1p', 'R'), ('y1p', 'R'), ('cp', 'C')],
+              ('post', '(u1, u2)', ('tuple', ['C', 'C']), {'from': 'u1 = (x1p', 'to': 'if u1.imag > 0'})))
+    g.append(('gen_Arc_param_E', P, [('self', T.ARC), ('u1', 'C')],
+              ('post', 'self.theta', 'R', {'from': 'if u1.imag > 0', 'to': 'det_uv = '})))
+    g.append(('gen_Arc_param_F', P, [('self', T.ARC), ('u1', 'C'), ('u2', 'C')],
+              ('post', 'self.delta', 'R', {'from': 'det_uv = '})))
